@@ -216,11 +216,25 @@ def main():
         try:
             Request.blank("/d.dmr").get_response(apps["plain"]).body
             still = False
-        except (AttributeError, TypeError):
+        except TypeError:
             still = True
         if still:
-            r.known_finding("GET /d.dmr on a dataset without DAP4 dimensions / with Structure or Sequence members raises while the DMR "
-                            "body is iterated (AttributeError 'dimensions' / TypeError), outside the handler's try block")
+            r.known_finding("GET /d.dmr on a dataset with Structure or Sequence members raises while the DMR body is iterated "
+                            "(TypeError: the DMR renderers of those types are empty), outside the handler's try block")
+    # the listed finding is exactly that; a dataset of arrays only (no dimensions table at all) does get its DMR
+    try:
+        import numpy as _np
+        from pydap.model import BaseType as _B, DatasetType as _D
+        plain_ds = _D("p")
+        plain_ds["x"] = _B("x", _np.arange(3, dtype=">i4"), units="m&s<")
+        res = Request.blank("/p.dmr").get_response(BaseHandler(plain_ds))
+        body = res.body
+        if res.status_int != 200 or b"</Dataset>" not in body:
+            direct.append({"request": "/p.dmr", "outcome": "status %s" % res.status, "application": "plain", "valid_constraint": True,
+                           "law": "a dataset of arrays is answered with its DMR"})
+    except Exception as e:  # noqa
+        direct.append({"request": "/p.dmr", "outcome": "raised:" + type(e).__name__, "application": "plain", "valid_constraint": True,
+                       "law": "a dataset of arrays is answered with its DMR"})
     seen = set()
     for d in direct:
         k = (d["outcome"], d["request"].split("?")[0].rsplit(".", 1)[-1])
